@@ -9,7 +9,8 @@ def is_any_dimension(factor: Expr) -> bool:
     absorbing nature.
     """
 
-    return factor in (S.Zero, S.Infinity, S.NegativeInfinity, S.NaN)
+    # NOTE: a floating-point zero does not compare equal to `S.Zero` (SymPy >= 1.13)
+    return factor in (S.Zero, S.Infinity, S.NegativeInfinity, S.NaN) or factor == 0.0
 
 
 def is_number(value: Any) -> bool:
